@@ -574,19 +574,15 @@ func c13Archives(ctx context.Context, c *core.C, w *c13World, kinds []c13Kind, p
 		for strip := uint32(0); strip <= 2; strip++ {
 			if tarOK {
 				err := storagearchive.Untar(ctx, bytes.NewReader(tarBuf.Bytes()), k.rw, storagearchive.UntarWithStripComponentCount(strip))
+				// the entry name as written in the archive is what the statement calls the name: one that escapes is
+				// rejected whatever number of leading components the caller asks to strip afterwards
 				rej := info
-				if strip > 0 {
-					rej.Escapes = false // rejection only demanded of the name as written (strip 0); safety is checked regardless
-				}
 				c13After(c, w, k, fmt.Sprintf("untar(strip=%d)", strip), p, rej, err, true)
 				c.Count("archive_ops", 1)
 			}
 			if zipOK {
 				err := storagearchive.Unzip(ctx, bytes.NewReader(zipBuf.Bytes()), int64(zipBuf.Len()), k.rw, storagearchive.UnzipWithStripComponentCount(strip))
 				rej := info
-				if strip > 0 {
-					rej.Escapes = false
-				}
 				// archive/zip itself refuses some names on read (ErrInsecurePath is off by default); an error is fine
 				c13After(c, w, k, fmt.Sprintf("unzip(strip=%d)", strip), p, rej, err, true)
 				c.Count("archive_ops", 1)
@@ -655,7 +651,7 @@ func init() {
 		Assumptions: []string{
 			"lexical escape model (model.AnalyzePath) is the definition of 'escapes'; symlink-based escapes are out of scope of the statement (lexical components only)",
 			"outside-unchanged is observed with lstat (type,size,mtime) snapshots of 5 directory levels above the root and content snapshots of the parent memory bucket",
-			"for archive entries with strip>0 only the safety clause (outside unchanged) is enforced, rejection is demanded for the name as written (strip=0)",
+			"for archive entries the rejection is demanded of the entry name as written in the archive, whatever the strip-components count (0..2); the safety clause (outside unchanged) is enforced in every case",
 		},
 		Exhaustive: true,
 		Cases: func(tier string) int {
